@@ -320,6 +320,14 @@ func typeDecls(c *spec.Case, pkgKey string) string {
 				}
 			}
 			if first {
+				if pkgKey == "" {
+					for j := range c.Types {
+						if c.Types[j].Kind == spec.KGeneric && c.Types[j].GenAlias && c.Types[j].Name == t.Name {
+							fmt.Fprintf(&sb, "// %sOf is a generic alias of %s.\ntype %sOf[T any] = %s[T]\n\n", t.Name, t.Name, t.Name, t.Name)
+							break
+						}
+					}
+				}
 				fmt.Fprintf(&sb, "type %s[T any] struct {\n\th uint32\n\tV T\n}\n\n", t.Name)
 			}
 		}
